@@ -20,6 +20,13 @@
 //! (shipped 5458_with_subgrid.gsb, generated root + 2 children + grandchild), so a look-up
 //! that remembers earlier queries inside a shared grid object (process-wide cache) shows.
 //!
+//! Instantiation is multi-threaded too: in a burst one live context of the history is lent
+//! (&mut, exclusively) to a newly created thread and after that to a second one, which
+//! instantiate new operators in it and in contexts of their own; every handle issued by any
+//! thread / context of the history goes into one set (all distinct), handles of contexts
+//! created on other threads must be rejected by every other context, and the older handles
+//! of the lent context are re-fingerprinted afterwards.
+//!
 //! Arithmetic of built-in primitives is taken from a pristine thread-local reference
 //! context (GridCtx, in-memory grids, never mutated after set-up); the model decides WHICH
 //! primitive with WHICH constant in WHICH order/direction; user operators are computed
@@ -1177,6 +1184,14 @@ impl MCtx {
     }
 }
 
+/// an instantiation that has been decided (definition, text, expectation) but not executed yet
+struct Prepared {
+    def: Def,
+    text: String,
+    ex: Expectation,
+    tag: String,
+}
+
 struct Live {
     ctx: usize,
     h: OpHandle,
@@ -1369,7 +1384,7 @@ impl Hist {
         Ok(())
     }
 
-    fn do_op(&mut self, ci: usize, def: &Def, layout: u8, rec: &mut Rec, at: usize) -> CaseResult {
+    fn prepare_op(&self, ci: usize, def: &Def, layout: u8, rec: &mut Rec) -> Prepared {
         let def = concretize(def, &self.slots);
         let text = render_def(&def, layout);
         let ex = expect(&def, &self.ctxs[ci].reg, &self.priv_files);
@@ -1381,10 +1396,22 @@ impl Hist {
         for l in &ex.labels {
             rec.class(&format!("file-layout-resolved:{l}"));
         }
+        Prepared { def, text, ex, tag }
+    }
+
+    fn do_op(&mut self, ci: usize, def: &Def, layout: u8, rec: &mut Rec, at: usize) -> CaseResult {
+        let p = self.prepare_op(ci, def, layout, rec);
         let r = {
             let any = &mut self.ctxs[ci].any;
-            guard(|| any.op(&text))
+            let text = &p.text;
+            guard(|| any.op(text).map_err(|e| format!("{e:?}")))
         };
+        self.finish_op(ci, p, r, rec, at)
+    }
+
+    /// Judge the outcome of `op(text)` - wherever (on whichever thread) it was executed
+    fn finish_op(&mut self, ci: usize, p: Prepared, r: Result<Result<OpHandle, String>, vcore::guard::PanicInfo>, rec: &mut Rec, at: usize) -> CaseResult {
+        let Prepared { def, text, ex, tag } = p;
         let r = match r {
             Err(p) => vfail!(format!("panic-op@{}", p.sig()), "op({text:?}) panics: {} at {}:{} [{}]", p.msg, p.file, p.line, self.registry_text(ci)),
             Ok(r) => r,
@@ -1405,7 +1432,7 @@ impl Hist {
                 if !ex.alts.iter().any(|a| matches!(a, Alt::Err(_))) {
                     vfail!(
                         format!("expected-ok-got-error/{tag}"),
-                        "op({text:?}) failed with {e:?}; the registry model expects {} [{}]",
+                        "op({text:?}) failed with {e}; the registry model expects {} [{}]",
                         expected_text(), self.registry_text(ci)
                     );
                 }
@@ -1518,21 +1545,25 @@ impl Hist {
     }
 
     fn unknown_handle(&self, ci: usize, h: OpHandle, what: &str) -> CaseResult {
-        let any = &self.ctxs[ci].any;
-        let mut data = probes();
-        let before = bits(&data);
-        let a = guard(|| any.apply(h, Fwd, &mut data)).map_err(|p| Failure { key: format!("panic-apply@{}", p.sig()), msg: format!("apply with {what} panics: {}", p.msg) })?;
-        let s = guard(|| any.steps(h)).map_err(|p| Failure { key: format!("panic-steps@{}", p.sig()), msg: format!("steps with {what} panics: {}", p.msg) })?;
-        let p = guard(|| any.params(h, 0)).map_err(|p| Failure { key: format!("panic-params@{}", p.sig()), msg: format!("params with {what} panics: {}", p.msg) })?;
-        if a.is_ok() || s.is_ok() || p.is_ok() || bits(&data) != before {
-            vfail!(
-                "unknown-handle-accepted",
-                "{what} {h:?} used on context #{ci}: apply -> {a:?} (data changed: {}), steps -> {:?}, params -> {}",
-                bits(&data) != before, s, if p.is_ok() { "Ok" } else { "Err" }
-            );
-        }
-        Ok(())
+        must_reject(&self.ctxs[ci].any, &format!("context #{ci}"), h, what)
     }
+}
+
+/// `h` was not issued by `any`: apply, steps and params must all fail, data must stay untouched
+fn must_reject(any: &AnyCtx, which: &str, h: OpHandle, what: &str) -> CaseResult {
+    let mut data = probes();
+    let before = bits(&data);
+    let a = guard(|| any.apply(h, Fwd, &mut data)).map_err(|p| Failure { key: format!("panic-apply@{}", p.sig()), msg: format!("apply with {what} panics: {}", p.msg) })?;
+    let s = guard(|| any.steps(h)).map_err(|p| Failure { key: format!("panic-steps@{}", p.sig()), msg: format!("steps with {what} panics: {}", p.msg) })?;
+    let p = guard(|| any.params(h, 0)).map_err(|p| Failure { key: format!("panic-params@{}", p.sig()), msg: format!("params with {what} panics: {}", p.msg) })?;
+    if a.is_ok() || s.is_ok() || p.is_ok() || bits(&data) != before {
+        vfail!(
+            "unknown-handle-accepted",
+            "{what} {h:?} used on {which}: apply -> {a:?} (data changed: {}), steps -> {:?}, params -> {}",
+            bits(&data) != before, s, if p.is_ok() { "Ok" } else { "Err" }
+        );
+    }
+    Ok(())
 }
 
 // ---- running a history --------------------------------------------------------------------
@@ -1713,7 +1744,7 @@ fn run_history(hist: &History, rec: &mut Rec) -> CaseResult {
                 "remove-grid-file"
             }
             Cmd::Burst { threads, rounds, seed, side } => {
-                burst(&mut w, *threads, *rounds, *seed, *side, rec)?;
+                burst(&mut w, *threads, *rounds, *seed, *side, rec, at)?;
                 let _ = write!(w.sig, "B{threads}{rounds}{};", *side as u8);
                 "concurrent-burst"
             }
@@ -1791,7 +1822,51 @@ fn ri_kind(seed: u16) -> bool {
 
 /// T threads share the contexts by reference and apply live handles to private data while
 /// (side) a further thread builds, uses and clears another Plain context / the grid cache.
-fn burst(w: &mut Hist, threads: u8, rounds: u8, seed: u16, side: bool, rec: &mut Rec) -> CaseResult {
+/// What a freshly created thread does: instantiate in the context it was lent (exclusively),
+/// then create contexts of its own and instantiate there.
+struct ThreadOut {
+    lent: Vec<Result<Result<OpHandle, String>, vcore::guard::PanicInfo>>,
+    own: Vec<(AnyCtx, Vec<(usize, Result<OpHandle, String>)>)>,
+}
+
+/// definitions instantiated by the threads in their own contexts, with their model
+const OWN_DEFS: [&str; 5] = ["addone", "addone inv", "helmert x=5", "addone | helmert x=2", "noop"];
+fn own_node(i: usize) -> Node {
+    let leaf = |prim: Prim, inverted: bool| Node::Leaf { prim, inverted };
+    match i {
+        0 => leaf(Prim::Add1, false),
+        1 => leaf(Prim::Add1, true),
+        2 => leaf(Prim::Helm(5), false),
+        3 => Node::Seq { items: vec![leaf(Prim::Add1, false), leaf(Prim::Helm(2), false)], inverted: false },
+        _ => leaf(Prim::Noop, false),
+    }
+}
+
+fn instantiate_on_this_thread(lent: &mut AnyCtx, texts: &[String], second: bool) -> ThreadOut {
+    let mut out = ThreadOut { lent: vec![], own: vec![] };
+    for t in texts {
+        out.lent.push(guard(|| lent.op(t).map_err(|e| format!("{e:?}"))));
+    }
+    for plain in [false, true] {
+        let mut c = AnyCtx::make(plain, true);
+        let mut hs = vec![];
+        // the second thread goes through the definitions in the opposite order: equal positions
+        // in the two threads' handle sequences then belong to different operators
+        let order: Vec<usize> = if second { (0..OWN_DEFS.len()).rev().collect() } else { (0..OWN_DEFS.len()).collect() };
+        for i in order {
+            let r = guard(|| c.op(OWN_DEFS[i]).map_err(|e| format!("{e:?}"))).unwrap_or_else(|p| Err(format!("panic: {} at {}:{}", p.msg, p.file, p.line)));
+            hs.push((i, r));
+        }
+        out.own.push((c, hs));
+    }
+    out
+}
+
+/// T threads share the contexts by reference and apply live handles to private data while
+/// (side) a further thread builds, uses and clears another Plain context / the grid cache, and
+/// (lend) one context of the history is lent exclusively to a newly created thread, and after
+/// that to a second one, which instantiate new operators in it and in contexts of their own.
+fn burst(w: &mut Hist, threads: u8, rounds: u8, seed: u16, side: bool, rec: &mut Rec, at: usize) -> CaseResult {
     let t = (threads % 6 + 2) as usize;
     let r = (rounds % 8 + 1) as usize;
     if w.live.is_empty() {
@@ -1802,11 +1877,55 @@ fn burst(w: &mut Hist, threads: u8, rounds: u8, seed: u16, side: bool, rec: &mut
             w.nt.insert("cache-clear-between-creation-and-use");
         }
     }
-    let nlive = w.live.len();
     let pr = probes();
-    let ctxs = &w.ctxs;
-    let live = &w.live;
-    let names: Vec<String> = live.iter().filter_map(|l| l.first_name.clone()).collect();
+    // ---- instantiations to be executed on other threads, decided (with their expectation) here
+    let lend = seed % 4 != 0;
+    let lc = (seed as usize / 4) % 3;
+    let mut batches: [Vec<Prepared>; 2] = [vec![], vec![]];
+    if lend {
+        w.nt.insert("instantiation-on-another-thread");
+        let v = (seed % 7) as i16 + 1;
+        let name = w.live.iter().filter(|l| l.ctx == lc).filter_map(|l| l.first_name.clone()).next().unwrap_or_else(|| "myop".to_string());
+        let arg = |k: i16| Arg::Lit(k);
+        let first = vec![
+            one(call("addone", Arg::None, false)),
+            one(helm(v)),
+            pipe(vec![call("addone", Arg::None, false), helm(2)]),
+            one(call(&name, arg(v), false)),
+        ];
+        let second = vec![
+            one(call("addone", Arg::None, true)),
+            one(helm(-v - 3)),
+            pipe(vec![helm(7), call("addone", Arg::None, true)]),
+            one(call(&name, arg(-v), true)),
+            one(call("noop", Arg::None, false)),
+        ];
+        for (k, defs) in [first, second].into_iter().enumerate() {
+            for d in defs {
+                batches[k].push(w.prepare_op(lc, &d, (seed % 3) as u8, rec));
+            }
+        }
+    }
+    let texts: [Vec<String>; 2] = [batches[0].iter().map(|p| p.text.clone()).collect(), batches[1].iter().map(|p| p.text.clone()).collect()];
+    // ---- split the contexts: the lent one exclusively, the others shared
+    let names: Vec<String> = w.live.iter().filter_map(|l| l.first_name.clone()).collect();
+    let Hist { ctxs: all_ctxs, live, .. } = &mut *w;
+    let live: &Vec<Live> = live;
+    let mut ctxs: Vec<Option<&AnyCtx>> = vec![];
+    let mut lent: Option<&mut AnyCtx> = None;
+    for (i, c) in all_ctxs.iter_mut().enumerate() {
+        if lend && i == lc {
+            lent = Some(&mut c.any);
+            ctxs.push(None);
+        } else {
+            ctxs.push(Some(&c.any));
+        }
+    }
+    let ctxs = &ctxs;
+    // handles that may be applied concurrently: those whose context is not lent out
+    let eligible: Vec<usize> = (0..live.len()).filter(|k| ctxs[live[*k].ctx].is_some()).collect();
+    let eligible = &eligible;
+    let nlive = eligible.len();
     type JobOut = (usize, bool, usize, Result<Out, Failure>);
     type SideOut = Result<(&'static str, bool, usize, Out), Failure>;
     // Helper threads come from a dedicated pool (thread creation costs ~1 ms here); a short
@@ -1821,6 +1940,7 @@ fn burst(w: &mut Hist, threads: u8, rounds: u8, seed: u16, side: bool, rec: &mut
         }
     };
     let np = pr.len();
+    let thread_outs;
     let results: std::sync::Mutex<Vec<Vec<JobOut>>> = std::sync::Mutex::new(vec![]);
     let side_res: std::sync::Mutex<Vec<SideOut>> = std::sync::Mutex::new(vec![]);
     {
@@ -1834,11 +1954,11 @@ fn burst(w: &mut Hist, threads: u8, rounds: u8, seed: u16, side: bool, rec: &mut
                     // single tuples: parent-only and child points of the grids alternate, so that
                     // concurrent threads hit different sub-grids of one shared grid object
                     for ri in 0..4 * r {
-                        let k = (seed as usize + 31 * ti + 17 * (ri / 4)) % nlive;
+                        let k = eligible[(seed as usize + 31 * ti + 17 * (ri / 4)) % nlive];
                         let fwd = (ti + ri / 2 + seed as usize) % 2 == 0;
                         let l = &live[k];
                         let j = if l.has_grid { GEO_PROBES[(ti + ri + seed as usize) % GEO_PROBES.len()] } else { (5 * ri + ti + seed as usize) % np };
-                        out.push((k, fwd, j, lib_apply(&ctxs[l.ctx].any, l.h, fwd, std::slice::from_ref(&pr[j]))));
+                        out.push((k, fwd, j, lib_apply(ctxs[l.ctx].expect("context not lent"), l.h, fwd, std::slice::from_ref(&pr[j]))));
                     }
                 }
                 results.lock().unwrap().push(out);
@@ -1888,7 +2008,20 @@ fn burst(w: &mut Hist, threads: u8, rounds: u8, seed: u16, side: bool, rec: &mut
                 *side_res.lock().unwrap() = out;
             }));
         }
-        run_scoped(jobs);
+        // A newly created thread gets the lent context, instantiates, and - when it is done - hands
+        // the context on to a second newly created thread; meanwhile this thread runs the pool jobs.
+        let texts = &texts;
+        thread_outs = std::thread::scope(|sc| {
+            let lender = lent.map(|any| {
+                sc.spawn(move || {
+                    let o1 = instantiate_on_this_thread(any, &texts[0], false);
+                    let o2 = std::thread::scope(|s2| s2.spawn(|| instantiate_on_this_thread(any, &texts[1], true)).join());
+                    (o1, o2)
+                })
+            });
+            run_scoped(jobs);
+            lender.map(|h| h.join())
+        });
     }
     let results = results.into_inner().unwrap();
     let side_out = side_res.into_inner().unwrap();
@@ -1927,6 +2060,64 @@ fn burst(w: &mut Hist, threads: u8, rounds: u8, seed: u16, side: bool, rec: &mut
             );
         }
         rec.count("side_thread_applies", 1);
+    }
+    // ---- what the newly created threads did
+    if let Some(joined) = thread_outs {
+        let (o1, o2) = match joined {
+            Ok((o1, Ok(o2))) => (o1, o2),
+            _ => panic!("an instantiating thread died outside the library guards"),
+        };
+        // (a) the instantiations in the lent context: judged exactly like those of this thread
+        // (resolution, uniqueness of the handle, behaviour); the caller then re-fingerprints every
+        // older handle of that context
+        let [b1, b2] = batches;
+        let mut owns = vec![];
+        for (batch, o) in [(b1, o1), (b2, o2)] {
+            for (p, r) in batch.into_iter().zip(o.lent) {
+                w.finish_op(lc, p, r, rec, at)?;
+                rec.count("instantiated_in_lent_context_on_other_thread", 1);
+            }
+            owns.extend(o.own);
+        }
+        // (b) the contexts the threads created for themselves: every handle distinct from every other
+        // handle of the history, behaving as defined, and unknown to every other context
+        let mut issued: Vec<(usize, OpHandle)> = vec![];
+        for (ci, (c, hs)) in owns.iter().enumerate() {
+            for (di, r) in hs {
+                let h = match r {
+                    Ok(h) => *h,
+                    Err(e) => vfail!("thread-op-failed", "op({:?}) in a context created on another thread failed: {e}", OWN_DEFS[*di]),
+                };
+                if !w.all.insert(h) {
+                    vfail!("duplicate-handle", "op({:?}) in a context created on another thread returned handle {h:?}, which another op() of this history (any thread, any context) had already returned", OWN_DEFS[*di]);
+                }
+                let node = own_node(*di);
+                for fwd in [true, false] {
+                    let lib = singletons(c, h, fwd, &pr[..3])?;
+                    let (m, _) = model_singletons(&node, fwd, &pr[..3]);
+                    if lib != m {
+                        vfail!("thread-context-mismatch", "'{}' instantiated in a context created on another thread ({}): {} vs model {} {}", OWN_DEFS[*di], if fwd { "Fwd" } else { "Inv" }, show_outs(&lib), node.describe(), show_outs(&m));
+                    }
+                }
+                issued.push((ci, h));
+                rec.count("instantiated_in_contexts_of_other_threads", 1);
+            }
+        }
+        for (ci, h) in &issued {
+            for k in 0..3 {
+                must_reject(&w.ctxs[k].any, &format!("context #{k} of the history"), *h, "handle issued by a context on another thread")?;
+            }
+            for (cj, (c, _)) in owns.iter().enumerate() {
+                if cj != *ci {
+                    must_reject(c, "another context created on a helper thread", *h, "handle issued by a context on another thread")?;
+                }
+            }
+        }
+        for l in w.live.iter().rev().take(4) {
+            for (c, _) in &owns {
+                must_reject(c, "a context created on another thread", l.h, "live handle of the history")?;
+            }
+        }
     }
     Ok(())
 }
@@ -2136,7 +2327,7 @@ fn main() {
     let n = run.scale(6_000, 45_000);
     run.section(
         "histories",
-        "random histories (3..=40 commands, thorough 100) over 3 context slots (Minimal/Plain, new/default) with names from all classes (built-in, plain, with ':', file based); non-trivial = a registration AFTER an instantiation that looked up the same name in the same context, or a cache clear / grid file removal while a grid operator is live, or a concurrent burst with live handles; distinct by command/name signature",
+        "random histories (3..=40 commands, thorough 100) over 3 context slots (Minimal/Plain, new/default) with names from all classes (built-in, plain, with ':', file based); non-trivial = a registration AFTER an instantiation that looked up the same name in the same context, or a cache clear / grid file removal while a grid operator is live, or a concurrent burst with live handles (in 3 of 4 bursts a context is lent to two newly created threads in turn, which instantiate operators in it and in contexts of their own); distinct by command/name signature",
         n,
         move || arb_history(general),
         run_history,
